@@ -20,7 +20,8 @@ RULE = ('enumerated: every integer -516..515 x places {omitted,1..10,0,11,-1} '
 ASSUMPTIONS = [
     'reference = Python int/format arithmetic (vf/ref/bases.py)',
     'non-integer decimal inputs, blank and empty-text arguments and '
-    'fractional places are not generated (statement silent)',
+    'fractional places are not generated (statement silent); whole places '
+    'are also passed as floats and as numeric text',
 ]
 
 BIN_FUNCS = ['DEC2BIN', 'BIN2DEC', 'BIN2OCT', 'BIN2HEX', 'OCT2BIN', 'HEX2BIN']
@@ -143,8 +144,10 @@ def _cases(draw):
             spell = 'native'
     else:
         spell = draw(st.sampled_from(['native', 'float', 'Number', 'text']))
+    # other KINDS of the same 'places' value: a float, numeric text
+    pspell = draw(st.sampled_from(['int', 'int', 'float', 'text']))
     return {'fn': fn, 'arg': arg, 'places': places, 'mode': mode,
-            'spell': spell}
+            'spell': spell, 'pspell': pspell}
 
 
 def strategy(tier):
@@ -214,7 +217,13 @@ def judge(case):
     exp = rb.convert(fn, ref_arg, None if pl_is_bool else places,
                      arg_is_bool, pl_is_bool)
     spelled = arg if arg_is_bool else _spelled(case)
-    obs = observe(fn, spelled if mode == 'call' else arg, places, mode, spell)
+    pobs = places
+    if isinstance(places, int) and not pl_is_bool:
+        if case.get('pspell') == 'float':
+            pobs = float(places)
+        elif case.get('pspell') == 'text':
+            pobs = str(places)
+    obs = observe(fn, spelled if mode == 'call' else arg, pobs, mode, spell)
     # non-triviality
     nt = spell in ('invalid', 'boolarg', 'boolplaces')
     if not nt and not arg_is_bool:
